@@ -21,6 +21,11 @@ import (
 	"pdverif/internal/etcdx"
 	"pdverif/internal/res"
 	"pdverif/internal/rng"
+	"pdverif/internal/srv15"
+
+	"github.com/pingcap/kvproto/pkg/metapb"
+	"github.com/pingcap/kvproto/pkg/pdpb"
+	"sync"
 )
 
 type opKind int
@@ -313,6 +318,114 @@ func (c caseRec) coq() string {
 	return "(" + coqfmt.List(ops) + ",\n  " + coqfmt.List(c.Obs) + ")"
 }
 
+// serverPhase: ids handed out by a complete real server through the AllocID RPC handler and through split handling
+// (AskSplit / AskBatchSplit draw region and peer ids from the same allocator), by concurrent callers, across two restarts
+// on the same data directory. Checked on the Go side: pairwise distinct, and never above the stored alloc_id bound.
+func serverPhase(R *res.Result, rounds int) {
+	cfg, err := srv15.Config()
+	if err != nil {
+		R.Notes = append(R.Notes, "server phase skipped: "+err.Error())
+		return
+	}
+	seen := map[uint64]string{}
+	var mu sync.Mutex
+	note := func(id uint64, src string, bound uint64) {
+		mu.Lock()
+		defer mu.Unlock()
+		if prev, ok := seen[id]; ok {
+			R.Violate("C04:duplicate-id:real-server", fmt.Sprintf("id %d handed out twice by a real server (%s, earlier %s)", id, src, prev), map[string]interface{}{"id": id})
+		}
+		seen[id] = src
+		if bound != 0 && id > bound {
+			R.Violate("C04:id-above-stored-bound:real-server", fmt.Sprintf("id %d handed out while the stored bound was %d", id, bound), map[string]interface{}{"id": id, "bound": bound})
+		}
+	}
+	var x *srv15.Srv
+	for term := 0; term < 3; term++ {
+		if term == 0 {
+			x, err = srv15.StartWith(cfg)
+			if err == nil {
+				err = x.Bootstrap()
+			}
+		} else {
+			x.Stop()
+			x, err = srv15.StartWith(cfg)
+		}
+		if err != nil {
+			R.Notes = append(R.Notes, "server phase aborted: "+err.Error())
+			break
+		}
+		s := x.S
+		bound := func() uint64 {
+			ctx, cancel := context.WithTimeout(context.Background(), 5*time.Second)
+			defer cancel()
+			r, err := s.GetClient().Get(ctx, path.Join("/pd", fmt.Sprint(s.ClusterID()), "alloc_id"))
+			if err != nil || len(r.Kvs) == 0 {
+				return 0
+			}
+			v, _ := typeutil.BytesToUint64(r.Kvs[0].Value)
+			return v
+		}
+		var wg sync.WaitGroup
+		for g := 0; g < 4; g++ {
+			wg.Add(1)
+			go func(g int) {
+				defer wg.Done()
+				for k := 0; k < rounds; k++ {
+					b := bound()
+					if g%2 == 0 {
+						resp, err := s.AllocID(context.Background(), &pdpb.AllocIDRequest{Header: x.Header()})
+						if err == nil && resp.GetHeader().GetError() == nil {
+							note(resp.GetId(), fmt.Sprintf("AllocID term %d", term), 0)
+							_ = b
+						}
+					} else {
+						region := &metapb.Region{Id: 2, Peers: []*metapb.Peer{{Id: 3, StoreId: 1}}}
+						resp, err := s.AskBatchSplit(context.Background(), &pdpb.AskBatchSplitRequest{Header: x.Header(), Region: region, SplitCount: 3})
+						if err != nil || resp.GetHeader().GetError() != nil {
+							// clusters whose version does not support batch split: the single split handler
+							r1, err1 := s.AskSplit(context.Background(), &pdpb.AskSplitRequest{Header: x.Header(), Region: region})
+							if err1 == nil && r1.GetHeader().GetError() == nil {
+								note(r1.GetNewRegionId(), fmt.Sprintf("AskSplit term %d", term), 0)
+								for _, p := range r1.GetNewPeerIds() {
+									note(p, fmt.Sprintf("AskSplit peer term %d", term), 0)
+								}
+							} else {
+								mu.Lock()
+								R.Count("server:split-refused")
+								mu.Unlock()
+							}
+							continue
+						}
+						if err == nil && resp.GetHeader().GetError() == nil {
+							for _, ids := range resp.GetIds() {
+								note(ids.GetNewRegionId(), fmt.Sprintf("AskBatchSplit term %d", term), 0)
+								for _, p := range ids.GetNewPeerIds() {
+									note(p, fmt.Sprintf("AskBatchSplit peer term %d", term), 0)
+								}
+							}
+						}
+					}
+				}
+			}(g)
+		}
+		wg.Wait()
+		// every id handed out so far is at most the bound stored now
+		b := bound()
+		mu.Lock()
+		for id := range seen {
+			if b != 0 && id > b {
+				R.Violate("C04:id-above-stored-bound:real-server", fmt.Sprintf("id %d was handed out but the stored bound is %d", id, b), map[string]interface{}{"id": id, "bound": b})
+			}
+		}
+		mu.Unlock()
+	}
+	if x != nil {
+		x.Close()
+	}
+	R.CountN("server:ids", len(seen))
+}
+
 func main() {
 	seed := flag.Uint64("seed", 1, "")
 	n := flag.Int("n", 300, "number of generated cases")
@@ -320,6 +433,7 @@ func main() {
 	tier := flag.String("tier", "quick", "")
 	corpus := flag.String("corpus", "", "json file of fixed op lists run first")
 	replay := flag.String("replay", "", "json file with one op list: run and print observations")
+	serverRounds := flag.Int("server-rounds", 400, "requests per caller and term in the real-server phase")
 	flag.Parse()
 
 	e, err := etcdx.Start()
@@ -398,6 +512,9 @@ func main() {
 	}
 	if err := cf.Flush(); err != nil {
 		panic(err)
+	}
+	if *replay == "" {
+		serverPhase(R, *serverRounds)
 	}
 	R.CaseFiles = cf.Files
 	// keep the raw cases so bin/check can extract a replay by index
